@@ -91,12 +91,18 @@ def mutate(x, route):
 
 
 # ------------------------------------------------------------------ operand factories and the op catalogue
-def operands(fam, rng):
+def operands(fam, rng, variant=0):
+    """variant 1: the degenerate pair - two transforms at the same position (different orientation), two screws / wrenches
+    in equal (not identical) frames: the branches binary helpers keep for coincident inputs run on tracked operands"""
     from basic_robotics.general import tm, Screw, Wrench
     v = lambda s=2.0: [rng.uniform(-s, s) for _ in range(6)]
     if fam == "tm":
-        return tm(v()), tm(v())
-    F1, F2 = tm(v(1.0)), tm(v(1.0))
+        a6, b6 = v(), v()
+        if variant == 1:
+            b6[:3] = a6[:3]
+        return tm(a6), tm(b6)
+    f1 = v(1.0)
+    F1, F2 = tm(f1), tm(list(f1) if variant == 1 else v(1.0))
     if fam == "screw":
         return Screw(np.array(v()).reshape((6, 1)), F1), Screw(np.array(v()).reshape((6, 1)), F2)
     return Wrench(np.array(v()).reshape((6, 1)), None, F1), Wrench(np.array(v()).reshape((6, 1)), None, F2)
@@ -132,6 +138,9 @@ def catalogue():
         "add_zero": lambda a, b: a + 0, "sub_zero": lambda a, b: a - 0, "mul_one": lambda a, b: a * 1, "rmul_one": lambda a, b: 1 * a,
         "div_one": lambda a, b: a / 1, "add_zero_array": lambda a, b: a + np.zeros(6),
         "tmctor_arr1": lambda a, b: tm(_arr1(a)),
+        "lookAt_self": lambda a, b: fsr.lookAt(a, a), "matmul_self": lambda a, b: a @ a, "add_self": lambda a, b: a + a,
+        "sub_self": lambda a, b: a - a, "l2g_self": lambda a, b: fsr.localToGlobal(a, a), "g2l_self": lambda a, b: fsr.globalToLocal(a, a),
+        "distance_self": lambda a, b: fsr.distance(a, a), "arcDistance_self": lambda a, b: fsr.arcDistance(a, a),
     }
     S = {
         "add": lambda a, b: a + b, "sub": lambda a, b: a - b, "mul_scalar": lambda a, b: a * 2.5, "rmul_scalar": lambda a, b: 2.5 * a,
@@ -145,6 +154,7 @@ def catalogue():
         "add_zero": lambda a, b: a + 0, "sub_zero": lambda a, b: a - 0, "mul_one": lambda a, b: a * 1, "rmul_one": lambda a, b: 1 * a,
         "div_one": lambda a, b: a / 1, "radd_scalar": lambda a, b: 0.5 + a, "rsub_scalar": lambda a, b: 0.5 - a,
         "radd_array6": lambda a, b: A6.copy() + a, "add_zero_array": lambda a, b: a + np.zeros(6),
+        "add_self": lambda a, b: a + a, "sub_self": lambda a, b: a - a, "cross_self": lambda a, b: a.cross(a), "dot_self": lambda a, b: a.dot(a),
     }
     return {"tm": T, "screw": S, "wrench": S}
 
@@ -179,7 +189,7 @@ def replay_history(job):
     rng = random.Random(seed)
     fam = beh["fam"]
     cat = catalogue()[fam]
-    a, b = operands(fam, rng)
+    a, b = operands(fam, rng, seed % 3)
     fa, fb = fingerprint(a), fingerprint(b)
     res = first = None
     opname = None
